@@ -41,15 +41,6 @@ func (m vSnapMeta) groupKey(g data.SnapshotGroupByOptions) string {
 	return strings.Join(parts, ";")
 }
 
-func vHas(l []string, x string) bool {
-	for _, y := range l {
-		if x == y {
-			return true
-		}
-	}
-	return false
-}
-
 // matches implements the documented filter semantics independently: host in list, every given path is a
 // snapshot path, some tag list fully contained in the snapshot tags.
 func (m vSnapMeta) matches(f data.SnapshotFilter) bool {
@@ -374,17 +365,6 @@ func TestVerif_C23(t *testing.T) {
 		}
 	}
 	res.Save("")
-}
-
-func vShort(ids []string) []string {
-	var r []string
-	for _, id := range ids {
-		if len(id) > 8 {
-			id = id[:8]
-		}
-		r = append(r, id)
-	}
-	return r
 }
 
 func vForgetClass(f string) string {
